@@ -3,7 +3,7 @@ import asyncio
 import importlib
 import json as _json
 
-from symcheck.env import drive, dump, same_json, HarnessError
+from symcheck.env import drive, dump, same_json, HarnessError, need
 from harness.stdio_fake import Rec
 from harness.h_C02 import grammar
 
@@ -87,6 +87,9 @@ HTTP.httpx = _FakeHttpxModule()
 
 def make_transport():
     t = HTTP.StreamableHTTPTransport(HPARAMS.StreamableHTTPParameters(url="http://srv/mcp"))
+    need(t, "_incoming_send", "_outgoing_recv", "_route_response", "_process_sse_text", "_send_message_via_http", "_send_message_internal",
+         "_outgoing_message_handler", "_session_id")
+    need(HTTP, "httpx", "json")
     t._incoming_send = Rec()
     return t
 
